@@ -300,6 +300,57 @@ def _refs_any_param(n, ids):
     return any(_refs_any_param(c, ids) for c in n.get("inner", []) if isinstance(c, dict))
 
 
+CMP_NEG = {"<": ">=", "<=": ">", ">": "<=", ">=": "<", "==": "!=", "!=": "=="}
+
+
+def _negate_cond(n):
+    """AST of the negation of a condition built from comparisons with && (De Morgan): a disjunction of comparisons, or None"""
+    m = _strip(n)
+    if m.get("kind") == "BinaryOperator" and m.get("opcode") == "&&":
+        a, b = _negate_cond(m["inner"][0]), _negate_cond(m["inner"][1])
+        if a is None or b is None:
+            return None
+        return {"kind": "BinaryOperator", "opcode": "||", "inner": [a, b]}
+    if m.get("kind") == "BinaryOperator" and m.get("opcode") in CMP_NEG:
+        c = dict(m)
+        c["opcode"] = CMP_NEG[m["opcode"]]
+        return c
+    if m.get("kind") == "UnaryOperator" and m.get("opcode") == "!":
+        inner = _strip(m["inner"][0])
+        if _cond_leaves(inner) is not None:
+            return inner
+    return None
+
+
+def _has_null(x):
+    if x.get("kind") == "ImplicitCastExpr" and x.get("castKind") == "NullToPointer":
+        return True
+    if x.get("kind") == "GNUNullExpr":
+        return True
+    return any(_has_null(c) for c in x.get("inner", []) if isinstance(c, dict))
+
+
+def _desugar_conditional_return(stmts):
+    """`return c ? T[p] : NULL;` / `return c ? NULL : T[p];`  ==  `if (!c) return NULL; return T[p];` / `if (c) return NULL; return T[p];`"""
+    if not stmts or stmts[-1].get("kind") != "ReturnStmt" or not stmts[-1].get("inner"):
+        return stmts
+    e = _strip(stmts[-1]["inner"][0])
+    if e.get("kind") != "ConditionalOperator" or len(e.get("inner", [])) != 3:
+        return stmts
+    c, a, b = e["inner"]
+    an, bn = _has_null(a) and _strip(a).get("kind") != "ArraySubscriptExpr", _has_null(b) and _strip(b).get("kind") != "ArraySubscriptExpr"
+    if bn and not an:
+        guard, val = _negate_cond(c), a
+    elif an and not bn:
+        guard, val = (c if _cond_leaves(c) is not None else None), b
+    else:
+        return stmts
+    if guard is None:
+        return stmts
+    null_ret = {"kind": "ReturnStmt", "inner": [b if bn else a]}
+    return stmts[:-1] + [{"kind": "IfStmt", "inner": [guard, null_ret]}, {"kind": "ReturnStmt", "inner": [val]}]
+
+
 def _analyse_body(stmts, pid, srcs, table_ok, consts, res):
     """the two recognised shapes over a statement list.  pid: id of the value parameter; table_ok(node) ->
     name of the table or None; consts: parameters bound to constant expressions by the caller.
@@ -308,6 +359,7 @@ def _analyse_body(stmts, pid, srcs, table_ok, consts, res):
     if not stmts:
         res["why"] = "empty body"
         return None
+    stmts = _desugar_conditional_return(stmts)
     last = stmts[-1]
     if last.get("kind") != "ReturnStmt" or not last.get("inner"):
         res["why"] = "last statement is not a return"
